@@ -1,6 +1,6 @@
 package main
 
-// C12 (narrow): delegation between kernels is nil-safe.
+// C12: delegation between kernels is nil-safe (R12.1); per-timestep mass budgets, delegation and removals (c12bal.go).
 
 import (
 	"fmt"
@@ -102,7 +102,10 @@ func computeNilSummaries(p *Program) nilSummary {
 func checkC12(p *Program, r *Report) {
 	r.Rule("R12.1", "delegation is nil-safe: wherever a kernel passes the constant nil for an array argument of another kernel, the callee never invokes a method on that parameter (directly or through further callees) except under a `!= nil` guard")
 	r.Assumptions = append(r.Assumptions,
-		"narrow claim: a model that panics conserves nothing, and the decay-disabled dissolved-constituent storage model named by the property is exactly the delegating path; the mass budgets themselves, non-negativity and the flush rule are value properties and are NOT decided")
+		"a model that panics conserves nothing, and the decay-disabled dissolved-constituent storage model named by the property is exactly the delegating path (R12.1, R12.3)",
+		"R12.2 decides the budget per timestep and per CFG path; closure over a period follows by induction on steps given that states are threaded (C06)",
+		"clamps against constants (math.Max(x,0), MinFloat64(100,·)) are read as their non-constant argument: the budget is decided for the case in which they do not bind; non-negativity as such, the remobilisation bound and StorageTrapAll (no timestep parameter) are NOT decided",
+		"the table of mass terms per model (OW-SPEC names) in tool/c12bal.go restates the property and is part of the checker")
 	sum := computeNilSummaries(p)
 	n := 0
 	for _, fn := range p.SrcFuncs() {
